@@ -41,10 +41,12 @@ NOT_CARRIED = [
     "measured on every permuted scene (max deviation in the evidence, dist key curve_dev_*)",
     "float rounding: C17_translate / C17_relabel / C17_distances are identities of exact ring arithmetic; the "
     "implementation is compared at rel 1e-9",
-    "Stokes form factors under rotations and scalings: not proved (proved only: translation invariance, "
-    "C05_similarity_partial).  It was false for the pinned code because of the 1e-3 m segment cut-off of "
-    "stokes_integration (finding similarity_cutoff of C05, repaired in /repo by cfd1b2b); a failure of a pair with a "
-    "segment extent below 3 mm is reported under that key",
+    "Stokes form factors under rigid maps x -> M x + t, M^T M = I, are now PROVED invariant for the cut-off-free sum, "
+    "i.e. for the code with its cut-off 0 (C17_kernels_stokes_rotation, from C05_similarity_isometry; scalings: "
+    "C05_similarity_scaling): an identity of exact ordered-field arithmetic, the float implementation is compared at "
+    "rel 1e-6.  It was false for the pinned code because of the 1e-3 m segment cut-off of stokes_integration (former "
+    "finding similarity_cutoff of C05, FIXED in /repo by cfd1b2b); a failure of a pair with a segment extent below "
+    "3 mm would still be reported under that key",
     "the Nusselt branch (adjacent patches) under any map: nusselt_integration is not modelled",
     "_point_in_polygon under rotations: it rotates the polygon to the horizontal plane and shoots a +x ray there; "
     "C17_kernels_visibility_partial is conditional on equal point-in-polygon answers in both poses (known finding "
